@@ -118,9 +118,12 @@ func (i *Interpreter) evaluateAsyncExpr(expr AsyncExpr, env *Environment) (inter
 	// Create a new Future to represent the pending result
 	future := NewFuture()
 
-	// Create a child environment for the async block
-	// This captures the current scope for use in the goroutine
-	asyncEnv := NewChildEnvironment(env)
+	// Create a child environment for the async block over a snapshot of the
+	// scopes visible now. Sharing the live scopes with the goroutine made the
+	// parent's later declarations and assignments race with the block's reads
+	// (fatal "concurrent map read and map write"); a block works on the values
+	// captured at the spawn and communicates its result through await.
+	asyncEnv := NewChildEnvironment(env.Snapshot(i.globalEnv))
 
 	// Execute the async block in a separate goroutine
 	go func() {
